@@ -77,6 +77,11 @@ def scan(repo: Repo) -> RuleRun:
         got = {v.get("index") for v in res} if isinstance(res, (set, frozenset, list)) else res
         r.check(got == want, fbp, f"{label}: {sorted(got) if isinstance(got, set) else got}", f"_find_by_position(position={pos}, radius={rad}) on vertices at {positions} returns vertices {sorted(got) if isinstance(got, set) else got}; expected {sorted(want)} ({label})", fbp.node, key=f"by_position:{pos}:{rad}")
 
+    # default radius = the merge tolerance
+    dflt = [n for n in ast.walk(fbp.node) if isinstance(n, ast.If) and "radius is None" in ast.unparse(n.test)]
+    r.require(len(dflt) == 1 and len(dflt[0].body) == 1 and isinstance(dflt[0].body[0], ast.Assign), "_find_by_position: 'if radius is None: radius = ...' not found")
+    dv = ast.unparse(dflt[0].body[0].value)
+    r.check(dv.split(".")[-1] == "TOL", fbp, "default radius = TOL", f"the default search radius is {dv}, not the merge tolerance TOL: an exact-position query returns neighbouring vertices as well", dflt[0], key="default-radius")
     fis = repo.func("modify.find.geometric.GeometricFinder.find_in_sphere")
     mesh, vs = _mesh(positions)
     this = Obj("finder", cls=repo.cls("modify.find.geometric.GeometricFinder"))
